@@ -764,6 +764,33 @@ fn run_case(ctx: &CaseCtx, stats: &mut Stats, out: &mut Vec<Violation>, harness:
                             stats,
                             viol(ctx, vi, "C14", format!("{} differs from new_with_state", name), input, name, show_calls(&b), show_calls(&a)),
                         );
+                        // what an action sees through peek() / match_loc() is also part of the action
+                        // protocol: if the first difference is inside an action's view, report C10 too
+                        let flat = |c: &Calls| -> Vec<El> {
+                            let mut v = vec![];
+                            for (evs, it) in c {
+                                for e in evs {
+                                    v.push(El::Ev(e.clone()));
+                                }
+                                match it {
+                                    Some(i) => v.push(El::It(i.clone())),
+                                    None => v.push(El::End),
+                                }
+                            }
+                            v
+                        };
+                        let (fa, fb) = (flat(&a), flat(&b));
+                        if let Some(k) = (0..fa.len().min(fb.len())).find(|k| fa[*k] != fb[*k]) {
+                            if let (El::Ev(x), El::Ev(y)) = (&fa[k], &fb[k]) {
+                                if x.rule == y.rule && x.me.byte == y.me.byte && x.ms.byte == y.ms.byte && (x.pk != y.pk || x.post != y.post) {
+                                    push_v(
+                                        out,
+                                        stats,
+                                        viol(ctx, vi, "C10", format!("peek() / match after reset seen by an action differs under {}", name), input, name, El::Ev(y.clone()).show(), El::Ev(x.clone()).show()),
+                                    );
+                                }
+                            }
+                        }
                     }
                 }
             }
